@@ -115,11 +115,14 @@ AddRecord(c, ext, cs, mg) ==
             IN [out |-> Ok, conv |-> IndexAdd([c EXCEPT !.recs[i] = nr], nr)]
   ELSE [out |-> Ok, conv |-> IndexAdd([c EXCEPT !.recs = Append(@, ext)], ext)]
 \* coverage signature of a match: on which side, exactly or only up to letter case
+\* which of the eight comparison sites of _match_record fire (new canonical / synonym  x  existing canonical / synonym,
+\* on either side), and whether only up to letter case
 MatchKinds(c, ext, cs) ==
-  (IF \E r \in RecSet(c) : AllP(ext) \cap AllP(r) # {} THEN {"P"} ELSE {}) \cup
-  (IF \E r \in RecSet(c) : AllU(ext) \cap AllU(r) # {} THEN {"U"} ELSE {}) \cup
-  (IF ~cs /\ \E r \in RecSet(c) : \E a \in AllP(ext), b \in AllP(r) : a # b /\ CF(a) = CF(b) THEN {"Pcase"} ELSE {}) \cup
-  (IF ~cs /\ \E r \in RecSet(c) : \E a \in AllU(ext), b \in AllU(r) : a # b /\ CF(a) = CF(b) THEN {"Ucase"} ELSE {})
+  LET Hit(a, b) == IF a = b THEN {"="} ELSE IF ~cs /\ CF(a) = CF(b) THEN {"~"} ELSE {}
+      Site(name, A, B) == {name \o h : h \in UNION {Hit(a, b) : a \in A, b \in B}}
+  IN UNION {Site("Pcc", {ext.p}, {r.p}) \cup Site("Pcs", {ext.p}, r.ps) \cup Site("Psc", ext.ps, {r.p}) \cup Site("Pss", ext.ps, r.ps) \cup
+            Site("Ucc", {ext.u}, {r.u}) \cup Site("Ucs", {ext.u}, r.us) \cup Site("Usc", ext.us, {r.u}) \cup Site("Uss", ext.us, r.us)
+            : r \in RecSet(c)}
 \* how URI prefixes nest: a synonym extending its own record's canonical prefix (or the reverse), nesting across
 \* records, two prefixes differing only in their last character
 NestKinds(rs) ==
